@@ -78,6 +78,7 @@ func normPanic(p any) string {
 
 // scripted readers / writers for ReadFrom / WriteTo
 type scriptReader struct {
+	idle     int // so many reads return (0, nil) first
 	chunks   [][]byte
 	err      error
 	neg      bool
@@ -88,6 +89,10 @@ type scriptReader struct {
 func (r *scriptReader) Read(p []byte) (int, error) {
 	if r.neg {
 		return -1, nil
+	}
+	if r.idle > 0 {
+		r.idle--
+		return 0, nil
 	}
 	if r.i >= len(r.chunks) {
 		if r.err != nil {
@@ -193,7 +198,7 @@ func c19ops(thorough bool) []c19op {
 	})
 	add("UnreadByte", func(b bufAPI) string { return guard(func() string { return normErr(b.UnreadByte()) }) })
 	add("UnreadRune", func(b bufAPI) string { return guard(func() string { return normErr(b.UnreadRune()) }) })
-	for _, n := range []int{-1, 0, 1, 3, 100} {
+	for _, n := range []int{-1, 0, 1, 3, 100, math.MaxInt, math.MaxInt - 1} {
 		n := n
 		add(fmt.Sprintf("Next(%d)", n), func(b bufAPI) string {
 			return guard(func() string { return fmt.Sprintf("%q", b.Next(n)) })
@@ -226,6 +231,9 @@ func c19ops(thorough bool) []c19op {
 			return &scriptReader{chunks: [][]byte{[]byte("ab")}, err: errors.New("rd-fail")}
 		}},
 		{"negative count", func() *scriptReader { return &scriptReader{neg: true} }},
+		{"100 empty reads, then 16 bytes", func() *scriptReader {
+			return &scriptReader{idle: 100, chunks: [][]byte{[]byte("alpha,beta,gamma")}}
+		}},
 		{"4 bytes together with EOF", func() *scriptReader {
 			return &scriptReader{chunks: [][]byte{[]byte("ab"), []byte("last")}, withLast: true}
 		}},
@@ -317,6 +325,13 @@ func c19roots() []c19root {
 		{"NewPrintCtxString(héllo\\n)", func() (bufAPI, bufAPI) {
 			return slog.NewPrintCtxString("h\xc3\xa9llo\n"), bytes.NewBufferString("h\xc3\xa9llo\n")
 		}},
+		{"NewPrintCtxString(70-byte string built at run time; the string itself is watched)", func() (bufAPI, bufAPI) {
+			src := strings.Repeat("0123456789", 7) // heap memory
+			pristine := string(append([]byte(nil), src...))
+			a := slog.NewPrintCtxString(src)
+			c19src[a] = c19watched{&src, pristine}
+			return a, bytes.NewBufferString(pristine)
+		}},
 		{"pooled shape (len 0, cap 1024)", func() (bufAPI, bufAPI) {
 			return slog.VerifNewPooledShapePC(), bytes.NewBuffer(make([]byte, 0, 1024))
 		}},
@@ -334,6 +349,14 @@ func c19roots() []c19root {
 	}
 }
 
+// strings handed to NewPrintCtxString: a Go string never changes
+type c19watched struct {
+	s        *string
+	pristine string
+}
+
+var c19src = map[bufAPI]c19watched{}
+
 type c19case struct {
 	Root int      `json:"root"`
 	Ops  []int    `json:"ops"`
@@ -350,7 +373,7 @@ func c19key(impl bufAPI, ref bufAPI) string {
 // the final key.
 func c19replay(roots []c19root, ops []c19op, cas c19case) (*Violation, string) {
 	impl, ref := roots[cas.Root].mk()
-	defer func() { delete(c19keep, impl); delete(c19keep, ref) }()
+	defer func() { delete(c19keep, impl); delete(c19keep, ref); delete(c19src, impl) }()
 	for i, oi := range cas.Ops {
 		op := ops[oi]
 		ra := op.f(impl)
@@ -370,6 +393,9 @@ func c19replay(roots []c19root, ops []c19op, cas c19case) (*Violation, string) {
 		}
 		obsA := ra + " | " + observe(impl)
 		obsB := rb + " | " + observe(ref)
+		if e, ok := c19src[impl]; ok && *e.s != e.pristine {
+			obsA += fmt.Sprintf(" | the string that was given to NewPrintCtxString now reads %q", *e.s)
+		}
 		// results that are private copies (ReadBytes / ReadString) must stay what they were
 		if keepA, keepB := c19kept(impl), c19kept(ref); keepA != keepB {
 			obsA += " | earlier ReadBytes results now " + keepA
@@ -401,6 +427,7 @@ func c19replay(roots []c19root, ops []c19op, cas c19case) (*Violation, string) {
 		}
 		delete(c19keep, i2)
 		delete(c19keep, r2)
+		delete(c19src, i2)
 	}
 	return nil, c19key(impl, ref) + lastString
 }
